@@ -309,12 +309,25 @@ func (r *runner) checkViews(key string, detail interface{}, ds disjoint.Set, m m
 	}
 	// the lists of Sets are the caller's: appending to one of them changes neither another list nor the Set
 	c.Obs("view_results_appended_to_by_the_caller", 1)
+	asReturned := append([][]int{}, sets...) // the slices as they were handed out (an append may move a list to new memory)
 	if msg := engine.AppendTouchesOthers(sets); msg != "" {
 		c.Violation(key+"|Sets|lists-of-the-result-share-memory", detail, msg, "lists the caller may append to independently")
 		return false
 	}
 	if after, pi := partitionOf(c, key+"|read-after-append-to-Sets", cp); pi != nil || !eqInts(after, []int(m)) {
 		c.Violation(key+"|caller-appends-to-the-lists-of-Sets-and-the-Set-changes", detail, fmt.Sprintf("classes by Find afterwards: %v %v", after, pi), fmt.Sprint([]int(m)))
+		return false
+	}
+	// ... and the caller may overwrite what is in them: Sets asked again (of another copy of the value) gives the same sets
+	for i := range asReturned {
+		for k := range asReturned[i] {
+			asReturned[i][k] += 1000
+		}
+	}
+	cp = append(disjoint.Set(nil), ds...)
+	var setsAgain [][]int
+	if pi := c.Call(key+"|Sets-after-the-caller-overwrote-an-earlier-result", func() { setsAgain = cp.Sets() }); pi != nil || fmt.Sprint(setsAgain) != fmt.Sprint(want) {
+		c.Violation(key+"|Sets-after-the-caller-overwrote-an-earlier-result", detail, fmt.Sprint(setsAgain, pi), fmt.Sprint(want))
 		return false
 	}
 	cp = append(disjoint.Set(nil), ds...)
